@@ -489,6 +489,90 @@ fn run(case: &Case, out: &mut Out) {
                     out.viol("h2h1-terminator", &format!("H2 upload ended={ended}: the chunked message on the HTTP/1.1 side is complete={complete} (last-chunk must be `0 CRLF CRLF`)"));
                 }
             }
+            "h2toh1t" => {
+                // h2toh1t <chunked> <nfields> <name> <value>.. <frame payload>.. : an upload ended by a trailer
+                // block. The DATA frames as in h2toh1 (shape tied by the translator); the trailer block through
+                // the real pkawa::handle_trailer and kawa's H1 converter (verif hook trailers_as_h1)
+                let chunked = a[0].n() != 0;
+                let nf = a[1].n() as usize;
+                let bs: Vec<Vec<u8>> = a[2..].iter().map(|t| t.b().to_vec()).collect();
+                let fields: Vec<(Vec<u8>, Vec<u8>)> = bs[..2 * nf].chunks(2).map(|p| (p[0].clone(), p[1].clone())).collect();
+                let frames: Vec<Vec<u8>> = bs[2 * nf..].to_vec();
+                let total: usize = frames.iter().map(|f| f.len()).sum();
+                let mut storage = vec![0u8; 16];
+                let mut kawa = kawa::Kawa::new(kawa::Kind::Request, kawa::Buffer::new(kawa::SliceBuffer(&mut storage)));
+                if chunked {
+                    kawa.body_size = kawa::BodySize::Chunked;
+                    kawa.parsing_phase = kawa::ParsingPhase::Chunks { first: false };
+                } else {
+                    kawa.body_size = kawa::BodySize::Length(total);
+                    kawa.parsing_phase = kawa::ParsingPhase::Body;
+                }
+                for f in frames.iter() {
+                    let content_len = f.len();
+                    if content_len > 0 {
+                        if chunked {
+                            kawa.push_block(kawa::Block::ChunkHeader(kawa::ChunkHeader { length: kawa::Store::from_vec(format!("{content_len:x}").into_bytes()) }));
+                        }
+                        kawa.push_block(kawa::Block::Chunk(kawa::Chunk { data: kawa::Store::from_vec(f.clone()) }));
+                        if chunked {
+                            kawa.push_block(kawa::Block::Flags(kawa::Flags { end_body: false, end_chunk: true, end_header: false, end_stream: false }));
+                        }
+                    }
+                }
+                kawa.prepare(&mut kawa::h1::BlockConverter);
+                let mut wire = vec![];
+                for b in kawa.out.iter() {
+                    if let kawa::OutBlock::Store(st) = b {
+                        wire.extend_from_slice(st.data(kawa.storage.buffer()));
+                    }
+                }
+                let body_end = wire.len();
+                match sozu_lib::protocol::mux::verif_c01::trailers_as_h1(&fields, if chunked { None } else { Some(total) }) {
+                    Ok(tail) => wire.extend_from_slice(&tail),
+                    Err(e) => {
+                        out.note(&format!("invalid-case: handle_trailer refused the generated trailer block: {e}"));
+                        out.obs(&[tb(&[]), tb(&[]), tbool(false), tbool(true)]);
+                        continue;
+                    }
+                }
+                let want: Vec<u8> = frames.concat();
+                if chunked {
+                    let mut msg = b"HTTP/1.1 200 OK\r\nTransfer-Encoding: chunked\r\n\r\n".to_vec();
+                    msg.extend_from_slice(&wire);
+                    let (body, complete, bad) = match read_h1(&msg, false) {
+                        Ok((b, c)) => (b, c, false),
+                        Err(_) => (vec![], false, true),
+                    };
+                    out.obs(&[tb(&wire), tb(&body), tbool(complete), tbool(bad)]);
+                    if bad || body != want {
+                        out.viol("h2h1-body", &format!("H2 upload of {} bytes ended by trailers reaches the HTTP/1.1 side as {} bytes (malformed={bad})", want.len(), body.len()));
+                    }
+                    if !complete {
+                        out.viol("h2h1-trailers", "H2 upload ended by trailers: the chunked message on the HTTP/1.1 side does not end where its bytes end (it must be `0 CRLF`, the trailer lines, `CRLF`, and nothing after)");
+                    }
+                    // the exact tail
+                    let mut tail = b"0\r\n".to_vec();
+                    for (k, v) in &fields {
+                        tail.extend_from_slice(k);
+                        tail.extend_from_slice(b": ");
+                        tail.extend_from_slice(v);
+                        tail.extend_from_slice(b"\r\n");
+                    }
+                    tail.extend_from_slice(b"\r\n");
+                    if wire[body_end..] != tail[..] {
+                        out.viol("h2h1-trailers", &format!("the bytes after the last chunk are {:?}, expected {:?}", String::from_utf8_lossy(&wire[body_end..]), String::from_utf8_lossy(&tail)));
+                    }
+                } else {
+                    out.obs(&[tb(&wire), tb(&wire), tbool(true), tbool(false)]);
+                    if wire.len() != body_end {
+                        out.viol("h2h1-trailers", &format!("content-length framed upload: {} bytes written after the body ({:?}); the HTTP/1.1 peer reads them as the next request", wire.len() - body_end, String::from_utf8_lossy(&wire[body_end..])));
+                    }
+                    if wire != want {
+                        out.viol("h2h1-body", "content-length framed upload: the bytes written differ from the payloads");
+                    }
+                }
+            }
             "h2conv" => {
                 // h2conv <max> <ended> <seed> W <w>.. C <n>..
                 let max = a[0].n() as usize;
